@@ -457,7 +457,7 @@ func runC10(r *simrt.Run) {
 	wl.Mix = nomsim.Mix{Transfer: 2, Receive: 3, Flow: 12, RandomCall: 3, Spork: 1}
 	// bias the flows toward lock/unlock traffic
 	lockFlows := []string{"fuse", "cancel-fuse", "stake", "cancel-stake", "htlc-create", "htlc-unlock", "htlc-reclaim", "htlc-proxy", "deposit-qsr", "withdraw-qsr",
-		"register-sentinel", "revoke-sentinel", "register-pillar", "revoke-pillar", "liquidity-stake", "liquidity-cancel"}
+		"register-sentinel", "revoke-sentinel", "sentinel-lifecycle", "register-pillar", "revoke-pillar", "liquidity-stake", "liquidity-cancel"}
 	model := &lockModel{entries: map[types.Hash]*lockEntry{}, proxy: map[types.Address]bool{}, pillars: map[string]*lockEntry{}, sentinels: map[types.Address]*lockEntry{},
 		deposits: map[types.Address]map[types.Address]*big.Int{}, everDeposited: map[types.Address]bool{}}
 	// collateral that exists since genesis
